@@ -92,7 +92,15 @@ func execOp(s *exec.State, ev abs.V) {
 		if x, ok := ev["dh"]; ok {
 			dh = abs.I(x)
 		}
-		s.UnmarshalRef(ev["entry"].(string), abs.I(ev["b"]), h, dh)
+		eqh := 0
+		if x, ok := ev["eqh"]; ok {
+			eqh = abs.I(x)
+		}
+		eqb := 0
+		if x, ok := ev["eqb"]; ok {
+			eqb = abs.I(x)
+		}
+		s.UnmarshalFull(ev["entry"].(string), abs.I(ev["b"]), h, dh, eqh, eqb)
 	case "datagram":
 		var parts []int
 		if pl, ok := ev["parts"]; ok {
